@@ -5,7 +5,7 @@ i=sys.argv[1]; p=props[i]
 # optional second argument: a round tag; later rounds get their own directories, variant letters and
 # a list of what earlier rounds already did for this property (so that they pick something else)
 tag=sys.argv[2] if len(sys.argv)>2 else ''
-va,vb=('a','b') if not tag else ('c','d')
+va,vb={'':('a','b'),'r2':('c','d'),'r3':('e','f')}.get(tag,('g','h'))
 import glob,os,re
 avoid=''
 if tag:
